@@ -433,6 +433,13 @@ def correspondence(ctx):
             os.makedirs(d)
             mode = rng.choice(["c", "c", "d", "d", "t"])
             names = ["f%d.dat" % k for k in range(rng.choice([1, 1, 2, 3]))]
+            # directed (first invocations of every run): several inputs, one of the EARLIER ones fails inside a frame (truncated / damaged), valid ones follow -
+            # the verdict of each file is its own: a failure must not leak into the files that follow (the decoding context is shared by the invocation)
+            directed_bad = None
+            if i < 8:
+                mode = "d" if i % 4 != 3 else "t"
+                names = ["f%d.dat" % k for k in range(2 + i % 2)]
+                directed_bad = (0 if i % 8 < 5 else 1, "cut" if i % 2 else "flip")
             content = make_files(rng, d, names)
             force, rm, stdout_ = rng.random() < 0.3, rng.random() < 0.5, rng.random() < 0.15
             level = rng.choice([1, 1, 1, 1, 0, 2, 2, 3])            # -q (as before) | -qq | default | -v : decides whether a question is asked, nothing else
@@ -446,11 +453,16 @@ def correspondence(ctx):
                 for nm in names:
                     os.unlink(os.path.join(d, nm))
                 inputs = [nm + ".zst" for nm in names]
-                for nm in inputs:
-                    if rng.random() < 0.25:
+                for k_, nm in enumerate(inputs):
+                    if (directed_bad is not None and k_ == directed_bad[0]) or (directed_bad is None and rng.random() < 0.25):
                         p = os.path.join(d, nm)
                         b = bytearray(open(p, "rb").read())
-                        if rng.random() < 0.5 and len(b) > 12:
+                        if directed_bad is not None and len(b) > 30:
+                            if directed_bad[1] == "cut":
+                                b = b[:rng.randrange(len(b) // 2, len(b) - 4)]      # ends in the middle of a block
+                            else:
+                                b[rng.randrange(len(b) // 2, len(b) - 4)] ^= 1 << rng.randrange(8)
+                        elif rng.random() < 0.5 and len(b) > 12:
                             b = b[:rng.randrange(5, len(b))]                    # truncated
                         elif len(b) > 8:
                             b[rng.randrange(6, len(b))] ^= 1 << rng.randrange(8)  # damaged
@@ -515,6 +527,11 @@ def correspondence(ctx):
                     ctx.violation("existing file '%s' overwritten without -f (and without a 'y' at a prompt): %s" % (dst, desc), dict(kind="monitor", invocation=args, env=inv))
                 if nm in bad and mode == "d" and not stdout_ and dst not in exists and dst in after:
                     ctx.violation("failed decompression left '%s' behind: %s" % (dst, desc), dict(kind="monitor", invocation=args, env=inv))
+                if mode == "d" and not stdout_ and nm not in bad and dst not in exists and not good_dst and not (len(inputs) > 1 and out):
+                    ctx.violation("a valid input ('%s': the library decodes it) was not decompressed into '%s' in a run where another input failed: %s | %s" % (
+                        nm, dst, desc, se.decode(errors="replace")[-200:]), dict(kind="monitor", invocation=args, env=inv))
+                if mode == "t" and level >= 1 and nm not in bad and any(nm.encode() in ln and any(w_ in ln.lower() for w_ in (b"error", b"corrupt", b"doesn't match", b"premature", b"unsupported")) for ln in se.split(b"\n")):
+                    ctx.violation("the test of a valid input ('%s': the library decodes it) reported an error: %s | %s" % (nm, desc, se.decode(errors="replace")[-300:]), dict(kind="monitor", invocation=args, env=inv))
                 if nm in bad and not src_intact:
                     ctx.violation("source '%s' removed although its decompression failed: %s" % (nm, desc), dict(kind="monitor", invocation=args, env=inv))
             if (rc == 0) != ok_expected and not (len(inputs) > 1 and out):
